@@ -1236,46 +1236,75 @@ def py_quote_stable(s: str) -> bool:
     return all(c in UNRESERVED for c in s) and s not in (".", "..")
 
 
-def coverage_path_values(value: str, extra_query=True):
-    """path values of the positive coverage cases of an operation whose path parameter can only be `value`."""
+def coverage_path_values(value: str, style=None):
+    """path values of the positive coverage cases of an operation whose path parameter can only be `value`
+    (several cases per operation: the two query parameters give boundary / enum variations)."""
     import schemathesis
     from schemathesis.generation import GenerationMode
     from schemathesis.generation.hypothesis.builder import _iter_coverage_cases
 
-    params = [{"name": "id", "in": "path", "required": True, "schema": {"type": "string", "enum": [value]}}]
-    if extra_query:
-        params.append({"name": "q", "in": "query", "schema": {"type": "integer", "minimum": 1, "maximum": 5}})
-        params.append({"name": "r", "in": "query", "schema": {"type": "string", "enum": ["x", "y"]}})
+    pdef = {"name": "id", "in": "path", "required": True, "schema": {"type": "string", "enum": [value]}}
+    if style is not None:
+        pdef["style"] = style
+    params = [pdef]
+    params.append({"name": "q", "in": "query", "schema": {"type": "integer", "minimum": 1, "maximum": 5}})
+    params.append({"name": "r", "in": "query", "schema": {"type": "string", "enum": ["x", "y"]}})
     raw = {"openapi": "3.0.2", "info": {"title": "t", "version": "1"}, "paths": {"/items/{id}": {"get": {"parameters": params, "responses": {"200": {"description": "ok"}}}}}}
     op = schemathesis.openapi.from_dict(raw)["/items/{id}"]["GET"]
     return [case.path_parameters["id"] for case in _iter_coverage_cases(op, [GenerationMode.POSITIVE]) if case.path_parameters and "id" in case.path_parameters]
 
 
+COVERAGE_STYLE_SFUN = {None: None, "simple": None, "label": "FLabelPrim", "matrix": "FMatrixPrim"}
+
+
+def coverage_case_carries(text: str, value: str, style) -> bool:
+    try:
+        decoded = py_pct_decode(text, True)
+        f = COVERAGE_STYLE_SFUN[style]
+        if f is not None:
+            decoded = py_style_decode(f, "id", decoded)
+        return decoded == value
+    except Undecodable:
+        return False
+
+
 def oracle_coverage_phase(chk, rng, n):
-    """Every positive coverage case must carry the (only possible) path value: decode what each case holds."""
-    runs = cases = bad = 0
-    for _ in range(n):
-        value = rng.choice(["abc", "a.b-1~", "v1"]) if rng.random() < 0.3 else "".join(ch for ch in rand_text(rng, 6) if ch not in "/{}" and not 0xD800 <= ord(ch) <= 0xDFFF)
+    """Every positive coverage case must carry the (only possible) path value: decode what each case holds.
+    Without a path style serializer no case may fail (C06_coverage_case_roundtrip; C06-F9 is fixed); with one, the cases after
+    the first are inside the listed region coverage_serializer_reapplied (C06_coverage_serializer_reapplied_refuted)."""
+    stats = {"operations": 0, "coverage_cases": 0, "operations_with_several_cases": 0, "values_changed_by_quoting": 0, "cases_not_carrying_the_value": 0}
+    for k in range(n):
+        if k % 4 == 0:
+            value = rng.choice(["a b%c", "a+b", "100%", "é ü", "x&y=z", "a b"])
+        elif rng.random() < 0.2:
+            value = rng.choice(["abc", "a.b-1~", "v1"])
+        else:
+            value = "".join(ch for ch in rand_text(rng, 6) if ch not in "/{}" and not 0xD800 <= ord(ch) <= 0xDFFF)
         if value in ("", ".", ".."):
             continue
+        style = rng.choice([None, None, "simple", "label", "matrix"])
         try:
-            got = coverage_path_values(value)
+            got = coverage_path_values(value, style)
         except Exception as exc:  # noqa: BLE001
             chk.count(f"coverage:skipped:{type(exc).__name__}")
             continue
-        runs += 1
+        stats["operations"] += 1
+        stats["operations_with_several_cases"] += len(got) >= 2
+        stats["values_changed_by_quoting"] += not py_quote_stable(value)
+        chk.count(f"coverage:style={style}")
         for i, text in enumerate(got):
-            cases += 1
-            try:
-                ok = py_pct_decode(text, True) == value
-            except Undecodable:
-                ok = False
-            chk.seen({"coverage_case": [value, i]}, not py_quote_stable(value))
-            if not ok:
-                bad += 1
-                chk.fail("coverage case does not carry the path value of its operation", {"value": value, "case_index": i},
-                         {"path_value_in_case": text, "all_cases": got[:4]}, region=None if (py_quote_stable(value) or i == 0) else "coverage_requote")
-    return {"operations": runs, "coverage_cases": cases, "cases_not_carrying_the_value": bad}
+            stats["coverage_cases"] += 1
+            chk.seen({"coverage_case": [value, style, i]}, not py_quote_stable(value))
+            if not coverage_case_carries(text, value, style):
+                stats["cases_not_carrying_the_value"] += 1
+                region = None
+                if COVERAGE_STYLE_SFUN[style] is not None and i >= 1:
+                    region = "coverage_serializer_reapplied"
+                elif " " in value and COVERAGE_STYLE_SFUN[style] is None:
+                    region = None  # the form reading used here maps + back to the space: nothing excuses a failure
+                chk.fail("coverage case does not carry the path value of its operation", {"value": value, "style": style, "case_index": i},
+                         {"path_value_in_case": text, "all_cases": got[:4]}, region=region)
+    return stats
 
 
 # ----------------------------------------------------------------------------------------
@@ -1419,8 +1448,9 @@ def witness_fails(w, rec=None) -> bool:
             status, problems = oracle_once(rec, c["defs"], c["values"], c.get("call_headers"), c.get("body"), c.get("media_type"), infos)
             return status == "sent" and any(region == w["region"] for _, region, _ in problems)
         if kind == "coverage_requote":
-            got = coverage_path_values(w["value"])
-            return len(got) >= 2 and py_pct_decode(got[0], True) == w["value"] and py_pct_decode(got[1], True) != w["value"]
+            got = coverage_path_values(w["value"], w.get("style"))
+            style = w.get("style")
+            return len(got) >= 2 and coverage_case_carries(got[0], w["value"], style) and not all(coverage_case_carries(g, w["value"], style) for g in got[1:])
         if kind == "label_falsy":
             from schemathesis.specs.openapi.serialization import label_primitive
 
